@@ -285,6 +285,10 @@ type cliHandler struct {
 	client    *RemoteClient
 	autoReady bool // declare ready with NextMessageID() on every accept, like cmd/client
 	readyErr  []error
+	// readyLag: the application asks for a repeat on its n-th accept by declaring ready with an id
+	// that many below the client's counter (it was handed those notifications but did not keep them)
+	readyLag []int
+	accepts  int
 }
 
 func (h *cliHandler) add(e cliEvent) {
@@ -308,7 +312,15 @@ func (h *cliHandler) HandleMessage(ctx context.Context, p MessagePayload) {
 	if _, ok := p.(*AcceptRegister); ok {
 		h.add(cliEvent{kind: "accept"})
 		if h.autoReady && h.client != nil {
-			if err := h.client.Ready(ctx, h.client.NextMessageID()); err != nil {
+			id := h.client.NextMessageID()
+			h.mu.Lock()
+			n := h.accepts
+			h.accepts++
+			if n < len(h.readyLag) && uint64(h.readyLag[n]) < id {
+				id -= uint64(h.readyLag[n])
+			}
+			h.mu.Unlock()
+			if err := h.client.Ready(ctx, id); err != nil {
 				h.mu.Lock()
 				h.readyErr = append(h.readyErr, err)
 				h.mu.Unlock()
